@@ -168,7 +168,8 @@ impl Scen1 {
     /// or be dynamic)
     pub fn run_dim<E: Elem, D: Dimension + RemoveAxis>(&self) -> (BuildOut, Vec<Out>) {
         let r = catch_unwind(AssertUnwindSafe(|| {
-            let data: Array<E, D> = make_data::<E>(&self.rows, &self.trail).into_dimensionality::<D>().unwrap();
+            let lv = next_layout_variant();
+            let data: Array<E, D> = relayout(make_data::<E>(&self.rows, &self.trail).into_dimensionality::<D>().unwrap(), if lv >= 1 { 1 } else { 0 });
             let qs: Vec<E> = self.queries.iter().map(|&q| E::of_f64(q)).collect();
             let tshape = data.raw_dim().remove_axis(ndarray::Axis(0));
             macro_rules! go {
@@ -204,7 +205,7 @@ impl Scen1 {
                     go!(Interp1DBuilder::new(data).strategy(configure_linear(self.ext)))
                 }
                 (Strat1::Linear, Some(ax)) => {
-                    let x = Array1::from(ax.iter().map(|&v| E::of_f64(v)).collect::<Vec<_>>());
+                    let x = relayout(Array1::from(ax.iter().map(|&v| E::of_f64(v)).collect::<Vec<_>>()), if lv == 2 { 1 } else { 0 });
                     go!(Interp1DBuilder::new(data).x(x).strategy(configure_linear(self.ext)))
                 }
                 (Strat1::Spline(bc), axo) => {
@@ -223,7 +224,7 @@ impl Scen1 {
                     match axo {
                         None => go!(Interp1DBuilder::new(data).strategy(strat)),
                         Some(ax) => {
-                            let x = Array1::from(ax.iter().map(|&v| E::of_f64(v)).collect::<Vec<_>>());
+                            let x = relayout(Array1::from(ax.iter().map(|&v| E::of_f64(v)).collect::<Vec<_>>()), if lv == 2 { 1 } else { 0 });
                             go!(Interp1DBuilder::new(data).x(x).strategy(strat))
                         }
                     }
@@ -460,7 +461,8 @@ impl Scen2 {
         D::Smaller: RemoveAxis,
     {
         let r = catch_unwind(AssertUnwindSafe(|| {
-            let data: Array<E, D> = self.make_data::<E>().into_dimensionality::<D>().unwrap();
+            let lv = next_layout_variant();
+            let data: Array<E, D> = relayout(self.make_data::<E>().into_dimensionality::<D>().unwrap(), if lv >= 1 { 1 } else { 0 });
             macro_rules! go {
                 ($builder:expr) => {{
                     match $builder.build() {
@@ -482,7 +484,7 @@ impl Scen2 {
                 }};
             }
             let st = configure_bilinear(self.ext);
-            let ar = |v: &Vec<f64>| Array1::from(v.iter().map(|&x| E::of_f64(x)).collect::<Vec<_>>());
+            let ar = |v: &Vec<f64>| relayout(Array1::from(v.iter().map(|&x| E::of_f64(x)).collect::<Vec<_>>()), if lv == 2 { 1 } else { 0 });
             match (&self.xax, &self.yax) {
                 (None, None) => go!(Interp2DBuilder::new(data).strategy(st)),
                 (Some(x), None) => go!(Interp2DBuilder::new(data).x(ar(x)).strategy(st)),
@@ -629,4 +631,24 @@ pub fn configure_bilinear(ext: bool) -> Bilinear {
         1 => Bilinear::new().extrapolate(!ext).extrapolate(ext),
         _ => Bilinear::new().extrapolate(ext).extrapolate(!ext).extrapolate(ext),
     }
+}
+
+/// Storage variants of one logical array (round-robin per call site): 0 = standard layout, 1 / 2 = the same
+/// logical contents stored with a NEGATIVE stride along the last axis (a contiguous block in reverse memory
+/// order).  Results must not depend on it (C13); used for the data and the axes of every scenario.
+pub fn relayout<E: Clone, D: Dimension>(a: Array<E, D>, variant: usize) -> Array<E, D> {
+    if variant == 0 || a.ndim() == 0 {
+        return a;
+    }
+    let last = ndarray::Axis(a.ndim() - 1);
+    let mut rev = a;
+    rev.invert_axis(last);
+    let mut stored = rev.as_standard_layout().to_owned();
+    stored.invert_axis(last);
+    stored
+}
+pub fn next_layout_variant() -> usize {
+    use std::sync::atomic::{AtomicUsize, Ordering};
+    static V: AtomicUsize = AtomicUsize::new(0);
+    V.fetch_add(1, Ordering::Relaxed) % 3
 }
